@@ -12,6 +12,7 @@ import (
 	"syscall"
 	"testing"
 	"time"
+	"unsafe"
 
 	"github.com/criyle/go-sandbox/container"
 	"github.com/criyle/go-sandbox/pkg/mount"
@@ -170,6 +171,8 @@ type tracedOpts struct {
 	Extra    []*os.File // descriptors 4.. of the probe
 	Timeout  time.Duration
 	Tag      string
+	RLimits  []rlimit.RLimit
+	Stdout   *os.File // fd 1 of the probe (default /dev/null)
 }
 
 type tracedResult struct {
@@ -198,6 +201,9 @@ func runTraced(o tracedOpts) (*tracedResult, error) {
 		tag = newTag()
 	}
 	files := []uintptr{devnull.Fd(), devnull.Fd(), devnull.Fd(), pw.Fd()}
+	if o.Stdout != nil {
+		files[1] = o.Stdout.Fd()
+	}
 	for _, f := range o.Extra {
 		files = append(files, f.Fd())
 	}
@@ -209,6 +215,7 @@ func runTraced(o tracedOpts) (*tracedResult, error) {
 		lim.MemoryLimit = 1 << 30
 	}
 	r := &ptrace.Runner{
+		RLimits:  o.RLimits,
 		Args:     o.Script.Argv(tag, 3),
 		Env:      []string{"VP=1"},
 		WorkDir:  o.WorkDir,
@@ -275,6 +282,7 @@ type sandboxOpts struct {
 	Extra    []*os.File
 	Timeout  time.Duration
 	Tag      string
+	Stdout   *os.File
 	// unshare only
 	Root                 string
 	Mounts               []mount.SyscallParams
@@ -369,6 +377,9 @@ func runUnshare(o sandboxOpts) (*tracedResult, error) {
 		tag = newTag()
 	}
 	files := []uintptr{devnull.Fd(), devnull.Fd(), devnull.Fd(), rp.pw.Fd()}
+	if o.Stdout != nil {
+		files[1] = o.Stdout.Fd()
+	}
 	for _, f := range o.Extra {
 		files = append(files, f.Fd())
 	}
@@ -397,6 +408,12 @@ func runUnshare(o sandboxOpts) (*tracedResult, error) {
 	}
 	tr := &tracedResult{Tag: tag}
 	tr.Result, tr.Hung, tr.Elapsed = runWithTimeout(func() runner.Result { return r.Run(ctx) }, o.Timeout)
+	if os.Getenv("VERIF_DEBUG") != "" && strings.Contains(tr.Result.Error, "permission denied") {
+		l, _ := os.Readlink(fmt.Sprintf("/proc/self/fd/%d", efd))
+		var st syscall.Stat_t
+		e := syscall.Fstat(int(efd), &st)
+		fmt.Printf("DEBUG EACCES: efd=%d -> %q mode=%o fstat err=%v files=%v rlimits=%v\n", efd, l, st.Mode, e, files, o.RLimits)
+	}
 	if tr.Hung {
 		rp.pw.Close()
 		rp.pr.Close()
@@ -428,6 +445,9 @@ func runContainer(o sandboxOpts) (*tracedResult, error) {
 		tag = newTag()
 	}
 	files := []uintptr{devnull.Fd(), devnull.Fd(), devnull.Fd(), rp.pw.Fd()}
+	if o.Stdout != nil {
+		files[1] = o.Stdout.Fd()
+	}
 	for _, f := range o.Extra {
 		files = append(files, f.Fd())
 	}
@@ -497,4 +517,12 @@ var (
 func devNullFile() *os.File {
 	devNullOnce.Do(func() { devNullF, _ = os.OpenFile("/dev/null", os.O_RDWR, 0) })
 	return devNullF
+}
+
+func unixPrlimit(pid, res int, newl, old *syscall.Rlimit) error {
+	_, _, e := syscall.RawSyscall6(syscall.SYS_PRLIMIT64, uintptr(pid), uintptr(res), uintptr(unsafe.Pointer(newl)), uintptr(unsafe.Pointer(old)), 0, 0)
+	if e != 0 {
+		return e
+	}
+	return nil
 }
